@@ -46,7 +46,7 @@ func boolsTerm(l []bool) string {
 
 func genC14(c *Ctx) error {
 	c.ShardSize = 600
-	c.Notes["rule"] = "(one vector in sixty is a burst: 8 goroutines x 150 queries at once, every one by a creator the process has not seen before) every vector runs in a child process hosting the chaincode (a process death is observed by the parent, which restarts the child after the crasher). plain: every entry point (Init, every function of the contract's router, batchExecute, executeTasks, swapDone, multiSwapDone, createIndex, the robot's transfer functions, unknown and empty names) x caller identity (robot, client, admin, garbage, empty, certificates with no / empty / several organisational units, RSA key, non-PEM and empty certificate bytes) x argument vectors of length 0..n+2 (correctly signed requests truncated / extended / permuted, addresses, numbers, JSON, protobuf, random bytes, empty, 64 KiB) x creator (robot, client, admin, garbage) x access-control replies (ok, error status, empty, garbled, ok without address, key-type list short / long / missing). batch: batchExecute with 1-5 pending transactions whose bodies put / fail / panic / nil-map-panic, swap answers and swap keys (well-formed, unknown, empty id) - per item: completed or not. tasks: executeTasks with 1-5 tasks whose bodies put / panic, tasks with fewer or more arguments than the method expects, unknown methods, access-control replies garbled for one signer - per task: completed or not. Non-trivial: the vector makes at least one frame panic or is malformed."
+	c.Notes["rule"] = "(one vector in sixty is a burst: 8 goroutines x 150 queries at once, every one by a creator the process has not seen before) every vector runs in a child process hosting the chaincode (a process death is observed by the parent, which restarts the child after the crasher). plain: every entry point (Init, every function of the contract's router, batchExecute, executeTasks, swapDone, multiSwapDone, createIndex, the robot's transfer functions, unknown and empty names) x caller identity (robot, client, admin, garbage, empty, certificates with no / empty / several organisational units, RSA key, non-PEM and empty certificate bytes) x argument vectors of length 0..n+2 (correctly signed requests truncated / extended / permuted, addresses, numbers, JSON, protobuf, random bytes, empty, 64 KiB) x creator (robot, client, admin, garbage) x access-control replies (ok, error status, the shim's answer for a call that could not be delivered, empty, garbled, ok without address, key-type list short / long / missing). batch: batchExecute with 1-5 pending transactions whose bodies put / fail / panic / nil-map-panic, swap and multi-swap answers (well-formed, foreign token, unfunded, an owner that is missing or too short) and swap keys (unknown, empty id) - per item: completed or not. tasks: executeTasks with 1-5 tasks whose bodies put / panic, tasks with fewer or more arguments than the method expects, unknown methods, access-control replies garbled for one signer - per task: completed or not. Non-trivial: the vector makes at least one frame panic or is malformed."
 	total := c.N(700, 12000)
 	self, err := os.Executable()
 	if err != nil {
@@ -196,7 +196,7 @@ func c14Child(args []string) int {
 		aclDesc := "ok"
 		if rng.Intn(4) == 0 {
 			fn := []string{"checkKeys", "getAccountInfo", "getAccountsInfo", "checkAddress"}[rng.Intn(4)]
-			mode := []string{"status", "empty", "garbled", "noaddr"}[rng.Intn(4)]
+			mode := []string{"status", "empty", "garbled", "noaddr", "transport"}[rng.Intn(5)]
 			w.Peer.ACL.Fault[fn] = mode
 			aclDesc = fn + ":" + mode
 		} else if rng.Intn(8) == 0 {
@@ -484,7 +484,7 @@ func c14Batch(w *World, rng *rand.Rand, accs []*Account, nextNonce func() string
 	fault, kt := w.Peer.ACL.Fault, w.Peer.ACL.KeyTypes
 	w.Peer.ACL.Fault, w.Peer.ACL.KeyTypes = map[string]string{}, "match"
 	b := &fpb.Batch{}
-	var txFlags, swFlags, keyFlags []bool
+	var txFlags, swFlags, msFlags, keyFlags []bool
 	var parts []string
 	for n := 1 + rng.Intn(5); n > 0; n-- {
 		s := c14Scripts[rng.Intn(len(c14Scripts))]
@@ -510,7 +510,14 @@ func c14Batch(w *World, rng *rand.Rand, accs []*Account, nextNonce func() string
 	}
 	for n := rng.Intn(3); n > 0; n-- {
 		id := []byte{byte(0xa0 + rng.Intn(200)%90), byte(rng.Intn(250))}
-		switch rng.Intn(3) {
+		switch rng.Intn(5) {
+		case 3: // an owner that is not an address: missing, or too short
+			b.Swaps = append(b.Swaps, &fpb.Swap{Id: id, Creator: accs[0].Addr, Owner: [][]byte{nil, {1, 2, 3}, accs[0].Addr[:20]}[rng.Intn(3)], Token: "VT", Amount: big.NewInt(5).Bytes(), From: "VT", To: "TT", Hash: swHash("k1"), Timeout: 1})
+			swFlags = append(swFlags, false) // the answer of a direct swap does not look at the owner: the record is stored
+		case 4: // the same among the multi-swaps
+			b.MultiSwaps = append(b.MultiSwaps, &fpb.MultiSwap{Id: id, Creator: accs[0].Addr, Owner: [][]byte{nil, {1, 2, 3}, accs[0].Addr[:20]}[rng.Intn(3)], Token: "VT",
+				Assets: []*fpb.Asset{{Group: "VT_1", Amount: big.NewInt(5).Bytes()}}, From: "VT", To: "TT", Hash: swHash("k1"), Timeout: 1})
+			msFlags = append(msFlags, false) // likewise stored; its reply follows those of the single swaps
 		case 0: // a well-formed answer of a swap from VT
 			b.Swaps = append(b.Swaps, &fpb.Swap{Id: id, Creator: accs[0].Addr, Owner: accs[0].Addr, Token: "VT", Amount: big.NewInt(5).Bytes(), From: "VT", To: "TT", Hash: swHash("k1"), Timeout: 1})
 			swFlags = append(swFlags, false)
@@ -526,8 +533,9 @@ func c14Batch(w *World, rng *rand.Rand, accs []*Account, nextNonce func() string
 		b.Keys = append(b.Keys, &fpb.SwapKey{Id: []byte{byte(rng.Intn(255))}, Key: "k1"}) // no such swap
 		keyFlags = append(keyFlags, true)
 	}
+	swFlags = append(swFlags, msFlags...)
 	w.Peer.ACL.Fault, w.Peer.ACL.KeyTypes = fault, kt
-	desc := fmt.Sprintf("batch acl=%s txs=%q swaps=%d keys=%d", aclDesc, parts, len(b.Swaps), len(b.Keys))
+	desc := fmt.Sprintf("batch acl=%s txs=%q swaps=%d multiswaps=%d keys=%d", aclDesc, parts, len(b.Swaps), len(b.MultiSwaps), len(b.Keys))
 	emit(c14Rec{I: i, Phase: "start", Kind: "batch", Desc: desc, Flags: [][]bool{txFlags, swFlags, keyFlags}})
 	out := w.ExecBatch("tt", b)
 	rec := c14Rec{I: i, Phase: "done", Replied: out.Res.Panicked == nil && out.Res.Status != 0, Status: out.Res.Status, Msg: truncS(out.Res.Message, 200)}
@@ -562,7 +570,7 @@ func c14Tasks(w *World, rng *rand.Rand, accs []*Account, nextNonce func() string
 	accs[1].ACLFault = sick
 	prefetch := ""
 	if rng.Intn(2) == 0 { // the grouped pre-fetch fails: every look-up then happens inside its own task
-		prefetch = []string{"status", "empty", "garbled"}[rng.Intn(3)]
+		prefetch = []string{"status", "empty", "garbled", "transport"}[rng.Intn(4)]
 		w.Peer.ACL.Fault["getAccountsInfo"] = prefetch
 	}
 	defer func() { accs[1].ACLFault = ""; delete(w.Peer.ACL.Fault, "getAccountsInfo") }()
